@@ -135,7 +135,9 @@ def scalable(units_a, units_b):
                 return False
         return True
 
-    if not (is_si(units_a) and is_si(units_b)):
+    if not (units_a and units_b and is_atomic(units_a) and is_atomic(units_b)):
+        # only atomic units can be scaled; of a compound, split() would see
+        # just the first factor
         return False
 
     _, a_unit, a_power = split(units_a)
